@@ -127,7 +127,7 @@ Legal(d, k, p, s) == LegalKP(d, k, p) /\ LegalS(d, k, p, s)
 (* the list recorded for the new revision: New = digest of the data, revpos = its generation; Stub = the parent's entry *)
 NewList(d, r, p, s, g) ==
   [n \in Carried(s) |-> IF s[n] > 0 THEN [c |-> s[n], pos |-> g[r], len |-> clen[s[n]]]
-                        ELSE PList(d, p)[n]]
+                        ELSE IF n \in DOMAIN PList(d, p) THEN PList(d, p)[n] ELSE [c |-> 0, pos |-> 0, len |-> 0]]
 
 (* ImplCommit: the document afterwards (tree nt, winner nc are parameters: the model adds the revision, the trace gives the recorded
    tree, which may also have been pruned), the lists, and the sweep.  Documents hit by the named deviation (skip) are not described. *)
